@@ -2991,7 +2991,17 @@ class BaseInterpreter(Generic[TContext, TEvent]):
                     delay_ms,
                 )
                 continue
+            # ⏲️ One timer per delay, not per candidate. The candidates
+            #    listed under one delay all answer the same expiry event
+            #    (first enabled one wins); arming a timer for each of them
+            #    delivered that event once per candidate, so a winner that
+            #    stays in the state (targetless) ran once per candidate in a
+            #    single activation.
+            armed_events = set()
             for t_def in transitions:
+                if t_def.event in armed_events:
+                    continue
+                armed_events.add(t_def.event)
                 delay_sec = float(resolved_ms) / 1000.0
                 after_event = AfterEvent(
                     type=t_def.event, activation=activation
